@@ -190,10 +190,12 @@ CommentsOnlyDropped(pre, post) ==
   IN Len(b) - p - q = 0 /\ Len(a) - p - q > 0
 
 \* a "--" comment is always the last thing on its line (it would swallow what follows when written out)
-\* (VSG keeps blanks that trail a comment as a separate whitespace token)
-CommentEndsLine(s) == \A i \in 1..Len(s) : s[i][F_K] \in {CMT, PRAGMA} =>
-                         \/ (i < Len(s) /\ s[i+1][F_K] = CR)
-                         \/ (i + 1 < Len(s) /\ s[i+1][F_K] = WS /\ s[i+2][F_K] = CR)
+\* (VSG keeps blanks that trail a comment as a separate whitespace token; zero-width BLANK markers are invisible)
+CommentEndsLine(s0) ==
+  LET s == SelectSeq(s0, LAMBDA t : t[F_K] # BLANK) IN
+  \A i \in 1..Len(s) : s[i][F_K] \in {CMT, PRAGMA} =>
+      \/ (i < Len(s) /\ s[i+1][F_K] = CR)
+      \/ (i + 1 < Len(s) /\ s[i+1][F_K] = WS /\ s[i+2][F_K] = CR)
 
 (***************************************************************************)
 (* Effect classes (C03)                                                    *)
